@@ -6,6 +6,8 @@ protocol        DatagramProtocol alone (one shared instance for the whole histor
 endpoint-sync   DatagramEndpoint over an in-memory scripted DatagramTransport (with scripted TimeoutError faults)
 endpoint-async  AsyncDatagramEndpoint over an in-memory AsyncDatagramTransport on the real asyncio backend
 udp             UDPNetworkClient / AsyncUDPNetworkClient over loopback UDP (missing datagram => inconclusive)
+large           datagrams of up to 65527 bytes (the UDP/IPv6 maximum) through the blocking transport/client over a simulated
+                socket that truncates like the kernel, and through both clients over real IPv6 loopback
 """
 
 from __future__ import annotations
@@ -44,6 +46,8 @@ def st_case(draw: st.DrawFn, tier: str, layer: str) -> dict:
     kinds = ["valid", "valid", "valid", "trunc", "ext", "glued", "random"]
     if spec.get("conv") and dgram.marked_packet(spec) is not None:
         kinds += ["marked", "marked"]
+    if mutate.recv_spec(spec)["kind"] == "pickle":
+        kinds += ["pickleops"] * 4
 
     def one(k: str) -> st.SearchStrategy[dict]:
         if k == "valid":
@@ -57,6 +61,8 @@ def st_case(draw: st.DrawFn, tier: str, layer: str) -> dict:
             return st.tuples(pk, pk).map(lambda t: {"k": "glued", "p": t[0], "q": t[1]})
         if k == "random":
             return st.binary(max_size=48).map(lambda b: {"k": "random", "data": b})
+        if k == "pickleops":
+            return mutate.st_pickle_ops().map(lambda b: {"k": "pickleops", "data": b})
         return st.just({"k": "marked"})
 
     max_d = 12 if layer != "udp" else 10
@@ -120,7 +126,7 @@ class Plan:
                 if j is None:
                     raise HarnessError("marked datagram for a kind that cannot carry one")
                 d = ser.serialize(self.entry.to_dto(j))
-            elif k == "random":
+            elif k in ("random", "pickleops"):
                 d = rec["data"]
             else:
                 valid = ser.serialize(self.entry.to_dto(rec["p"]))
@@ -493,6 +499,207 @@ def _run_udp_async(plan: Plan, case: dict, peer: socket.socket, csock: socket.so
                 csock.close()
 
 
+
+# ----------------------------------------------------------------------------------------------
+# layer "large": datagram sizes at the top of what UDP can carry (65507 bytes over IPv4, 65527 over IPv6).  A receive
+# buffer that is a few bytes too small silently *truncates* such a datagram (the kernel drops the rest): boundaries are
+# then no longer preserved although every ordinary datagram still works.  Payload-transparent serializer, so the sizes
+# on the wire are exactly the generated ones; three carriers: the blocking SocketDatagramTransport / UDPNetworkClient over
+# a simulated datagram socket that truncates to the recv() buffer size as the kernel does, and both UDP clients over
+# real IPv6 loopback sockets when the sandbox has ::1 (else inconclusive).
+
+LARGE_SIZES = [1, 2, 1000, 1472, 9000, 32768, 65000, 65506, 65507, 65508, 65509, 65520, 65526, 65527]
+UDP6_MAX = 65527
+UDP4_MAX = 65507
+
+
+def _transparent_protocol() -> Any:
+    from easynetwork.exceptions import DeserializeError
+    from easynetwork.protocol import DatagramProtocol
+    from easynetwork.serializers.abc import AbstractPacketSerializer
+
+    class Transparent(AbstractPacketSerializer[bytes, bytes]):
+        __slots__ = ()
+
+        def serialize(self, packet: bytes) -> bytes:
+            return bytes(packet)
+
+        def deserialize(self, data: bytes) -> bytes:
+            if data[:1] == b"!":
+                raise DeserializeError("marked as malformed")
+            return bytes(data)
+
+    return DatagramProtocol(Transparent())
+
+
+def _large_payload(i: int, size: int, bad: bool) -> bytes:
+    head = (b"!" if bad else b"#") + b"%d:%d:" % (i, size)
+    body = bytearray(head[:size])
+    k = 0
+    while len(body) < size:
+        body += b"%08x" % (k * 2654435761 % (1 << 32))
+        k += 1
+    body = body[:size]
+    if size >= 2:
+        body[-1] = 0x24  # '$': a lost tail is visible even if the length were not compared
+    return bytes(body)
+
+
+@st.composite
+def st_large_case(draw: st.DrawFn, tier: str) -> dict:
+    carrier = draw(st.sampled_from(["fake-transport", "fake-client", "fake-client", "udp6-sync", "udp6-async"]))
+    n = draw(st.integers(1, 5))
+    sizes = draw(st.lists(st.sampled_from(LARGE_SIZES), min_size=n, max_size=n))
+    if not any(s > 65000 for s in sizes):
+        sizes[draw(st.integers(0, n - 1))] = draw(st.sampled_from([s for s in LARGE_SIZES if s > 65000]))
+    return {
+        "carrier": carrier,
+        "inbound": [[s, draw(st.integers(0, 4)) == 0] for s in sizes],
+        "sends": draw(st.lists(st.sampled_from(LARGE_SIZES), max_size=2)),
+    }
+
+
+def _check_large_recv(i: int, size: int, bad: bool, got: tuple, where: str) -> None:
+    want = _large_payload(i, size, bad)
+    if bad:
+        if got[0] != "err":
+            raise Violation("error-isolation", f"{where}: malformed datagram #{i} ({size} bytes) did not yield a parse error: {got!r:.200}", where=where)
+        return
+    if got[0] != "pkt":
+        raise Violation("boundaries", f"{where}: valid datagram #{i} of {size} bytes yielded {got!r:.200}", where=where, size=size)
+    if got[1] != want:
+        raise Violation(
+            "boundaries",
+            f"{where}: datagram #{i} of {size} bytes was delivered as a packet of {len(got[1])} bytes (truncated or merged)",
+            where=where,
+            size=size,
+            delivered=len(got[1]),
+        )
+
+
+def run_large(case: dict) -> Outcome:
+    carrier = case["carrier"]
+    inbound = [(s, bool(b)) for s, b in case["inbound"]]
+    proto = _transparent_protocol()
+    classes = [f"carrier-{carrier}"]
+    if any(s > UDP4_MAX for s, _ in inbound):
+        classes.append("above-ipv4-max")
+    if carrier.startswith("fake"):
+        import math
+
+        from easynetwork.lowlevel.api_sync.transports.socket import SocketDatagramTransport
+
+        from ..syncworld import World, make_selector_factory, virtual_clock
+        from .c11 import PeeredFakeSocket, _patched_default_selector
+
+        world = World()
+        sock = PeeredFakeSocket(world, socket.SOCK_DGRAM)
+        for i, (s, bad) in enumerate(inbound):
+            sock.env_arrive_dgram(_large_payload(i, s, bad))
+        factory = make_selector_factory(world, sock)
+        with virtual_clock(world):
+            if carrier == "fake-transport":
+                obj: Any = DatagramEndpoint(SocketDatagramTransport(sock, math.inf, selector_factory=factory), proto)
+            else:
+                with _patched_default_selector(factory):
+                    obj = UDPNetworkClient(sock, proto)
+            try:
+                for i, (s, bad) in enumerate(inbound):
+                    _check_large_recv(i, s, bad, _capture(obj.recv_packet, timeout=0), carrier)
+                for j, s in enumerate(case["sends"]):
+                    before = len(sock.tx_dgrams)
+                    data = _large_payload(100 + j, s, False)
+                    obj.send_packet(data, timeout=0)
+                    if sock.tx_dgrams[before:] != [data]:
+                        raise Violation("one-datagram-per-send", f"{carrier}: send_packet of {s} bytes produced {[len(d) for d in sock.tx_dgrams[before:]]}")
+            finally:
+                obj.close()
+        return Outcome(nontrivial=any(s > UDP4_MAX and not bad for s, bad in inbound), classes=tuple(classes))
+
+    # real IPv6 loopback
+    try:
+        peer = socket.socket(socket.AF_INET6, socket.SOCK_DGRAM)
+        csock = socket.socket(socket.AF_INET6, socket.SOCK_DGRAM)
+        try:
+            for sk in (peer, csock):
+                sk.setsockopt(socket.SOL_SOCKET, socket.SO_RCVBUF, 1 << 20)
+                sk.setsockopt(socket.SOL_SOCKET, socket.SO_SNDBUF, 1 << 20)
+            peer.bind(("::1", 0))
+            csock.bind(("::1", 0))
+            csock.connect(peer.getsockname()[:2])
+            peer.connect(csock.getsockname()[:2])
+        except BaseException:
+            peer.close()
+            csock.close()
+            raise
+    except OSError as exc:
+        raise Inconclusive(f"no IPv6 loopback UDP in this sandbox: {exc}") from exc
+
+    def push_inbound() -> None:
+        for i, (s, bad) in enumerate(inbound):
+            try:
+                peer.send(_large_payload(i, s, bad))
+            except OSError as exc:
+                raise Inconclusive(f"kernel refused a {s}-byte datagram on ::1: {exc}") from exc
+
+    if carrier == "udp6-sync":
+        with peer:
+            client = UDPNetworkClient(csock, proto)
+            with client:
+                peer.settimeout(UDP_WAIT_S)
+                push_inbound()
+                for i, (s, bad) in enumerate(inbound):
+                    try:
+                        got = _capture(client.recv_packet, timeout=UDP_WAIT_S)
+                    except TimeoutError:
+                        raise Inconclusive(f"datagram #{i} did not arrive within {UDP_WAIT_S}s") from None
+                    _check_large_recv(i, s, bad, got, carrier)
+                for j, s in enumerate(case["sends"]):
+                    data = _large_payload(100 + j, s, False)
+                    client.send_packet(data)
+                    try:
+                        seen = peer.recv(1 << 17)
+                    except (TimeoutError, socket.timeout):
+                        raise Inconclusive(f"sent datagram #{j} did not reach the peer within {UDP_WAIT_S}s") from None
+                    if seen != data:
+                        raise Violation("one-datagram-per-send", f"{carrier}: send_packet of {s} bytes reached the peer as {len(seen)} bytes")
+    else:
+
+        async def main() -> None:
+            loop = asyncio.get_running_loop()
+            peer.setblocking(False)
+            client = AsyncUDPNetworkClient(csock, proto, AsyncIOBackend())
+            async with client:
+                await client.wait_connected()
+                push_inbound()
+                for i, (s, bad) in enumerate(inbound):
+                    try:
+                        pkt = await asyncio.wait_for(client.recv_packet(), UDP_WAIT_S)
+                    except DatagramProtocolParseError as exc:
+                        got: tuple = ("err", type(exc.error).__name__)
+                    except TimeoutError:
+                        raise Inconclusive(f"datagram #{i} did not arrive within {UDP_WAIT_S}s") from None
+                    else:
+                        got = ("pkt", pkt)
+                    _check_large_recv(i, s, bad, got, carrier)
+                for j, s in enumerate(case["sends"]):
+                    data = _large_payload(100 + j, s, False)
+                    await client.send_packet(data)
+                    try:
+                        seen = await asyncio.wait_for(loop.sock_recv(peer, 1 << 17), UDP_WAIT_S)
+                    except TimeoutError:
+                        raise Inconclusive(f"sent datagram #{j} did not reach the peer within {UDP_WAIT_S}s") from None
+                    if seen != data:
+                        raise Violation("one-datagram-per-send", f"{carrier}: send_packet of {s} bytes reached the peer as {len(seen)} bytes")
+
+        with peer:
+            try:
+                asyncio.run(main())
+            finally:
+                if csock.fileno() != -1:
+                    csock.close()
+    return Outcome(nontrivial=any(s > UDP4_MAX and not bad for s, bad in inbound), classes=tuple(classes))
+
 # ----------------------------------------------------------------------------------------------
 
 # ----------------------------------------------------------------------------------------------
@@ -628,6 +835,7 @@ CHECK = Check(
         Layer("endpoint-async", _strategy("endpoint-async"), run_endpoint_async, {"quick": 200, "thorough": 1500}),
         Layer("asyncio-endpoint", st_asyncio_endpoint_case, run_asyncio_endpoint, {"quick": 400, "thorough": 3000}),
         Layer("udp", _strategy("udp"), run_udp, {"quick": 60, "thorough": 200}),
+        Layer("large", st_large_case, run_large, {"quick": 60, "thorough": 300}),
     ],
     assumptions=[
         "valid packets respect the documented preconditions of each serializer (see C01); NaN excluded because equality is the oracle",
